@@ -52,7 +52,7 @@ func saveFileExtensionHandlers(handlers map[string]string) error {
 	if err != nil {
 		return fmt.Errorf("couldn't json-encode file extension handlers: %w", err)
 	}
-	if err := os.WriteFile(octosqlFileExtensionHandlersFile, data, 0644); err != nil {
+	if err := config.WriteFileAtomic(octosqlFileExtensionHandlersFile, data, 0644); err != nil {
 		return fmt.Errorf("couldn't write file extension handlers to file: %w", err)
 	}
 	return nil
